@@ -16,4 +16,4 @@ ASSUMPTIONS = ['Task(...) constructor calls are executed but not judged (a const
 
 
 def streams(tier):
-    return hist_streams('C15', 'late', 2400, 60000)
+    return hist_streams('C15', 'late', 8000, 80000)
